@@ -279,6 +279,23 @@ func main() {
 		perChild[name] = map[string]interface{}{"evaluations": r.Evals, "distinct": len(r.Nontrivial), "extra": r.Extra}
 	}
 	c.Set("children", perChild)
+	// noted weakness outside the stated quantifier (two fields change at once): counted, not judged
+	shift := map[string]int64{}
+	for _, r := range results {
+		if r == nil {
+			continue
+		}
+		for k, v := range r.Counters {
+			if strings.HasPrefix(k, "observed.adjacent_field_shift") {
+				shift[strings.TrimPrefix(k, "observed.")] += v
+			}
+		}
+	}
+	c.Set("adjacent_field_shift", map[string]interface{}{
+		"what": "one byte moved across the border of two byte-string fields that are neighbours in the signed serialization " +
+			"(no length prefixes): digest, signature validity and block hash are unchanged; acceptance is counted, not judged",
+		"counts": shift,
+	})
 	c.Set("slot_windows", map[string]interface{}{
 		"exhaustive": true,
 		"space": "every millisecond in [b*I-3ms, b*I+3ms] for boundaries b=0.." + map[bool]string{true: "n+1", false: "3n"}[c.Quick()] +
